@@ -4,6 +4,7 @@ import collections
 import itertools
 
 from vmon import env, hooks
+from vmon.oracles import read_decoder_output
 from vmon.aromgen import (STANDARD, ANCHORED, EXOTIC, ALL_KINDS, standard_system, substituted_system,
                           cage_system, CAGE_NAMES, pi_set, link_systems, single_ring_bonds, poly_aryl, union, benzenoid_system)
 from vmon.molgen import random_tree_mol
@@ -172,10 +173,12 @@ class Arom(object):
             if d[0] != "ok":
                 ctx.finding("decoder-rejects-encoder-output", dict(payload, selfies=x), repr(d)[:200])
                 continue
-            try:
-                mo = read_smiles(d[1])
-            except SmilesSyntaxError as e:
-                ctx.finding("output-unreadable", dict(payload, output=d[1]), str(e))
+            mo, st_out = read_decoder_output(d[1], lambda m_: compare_roundtrip(mi, m_, check_stereo=False))
+            if st_out == "budget":
+                ctx.count("segmentation_budget")      # >= 100 ring labels (F1 text), search cut short: no verdict
+                continue
+            if mo is None:
+                ctx.finding("output-unreadable", dict(payload, output=d[1]), "the decoder's output cannot be read")
                 continue
             diff = compare_roundtrip(mi, mo, check_stereo=False)
             if diff is not None:
